@@ -15,6 +15,16 @@ PROPS = {
         "rule": "one execution = one complete interleaving of the ticking thread, the workers, the canceller and the pool's stop goroutine; distinct = distinct outcome signatures (status, violations, started/dropped counts)",
         "assumptions": E1_ASSUME + ["interleavings inside progress.Stats are not explored here (its atomics are single steps without own scheduling points): that is C01's harness"],
     },
+    "C03": {
+        "parts": [{"harness": "pools", "args": ["-prop", "C03"], "budget": {"quick": 60, "thorough": 1800}, "shards": {"quick": "ncpu", "thorough": "ncpu"}}],
+        "rule": "one execution = one complete interleaving of ticking thread, workers and stop path (trigger pool, continuous pool, two config-file stages sharing one manager); distinct = distinct outcome signatures (status, violations, started/dropped/high-water)",
+        "assumptions": E1_ASSUME + ["interleavings inside progress.Stats are not explored here (C01's harness)", "three-worker scenarios use the delay-bounded policy (every departure from the deterministic scheduler costs 1)"],
+    },
+    "C04": {
+        "parts": [{"harness": "pools", "args": ["-prop", "C04"], "budget": {"quick": 60, "thorough": 1800}, "shards": {"quick": "ncpu", "thorough": "ncpu"}}],
+        "rule": "one execution = one complete interleaving; bodies contain a scheduling point and a tracked enter/leave so overlap is schedulable and its order is part of the state key; distinct = distinct outcome signatures (status, violations, started/dropped/high-water)",
+        "assumptions": E1_ASSUME + ["interleavings inside progress.Stats are not explored here (C01's harness)", "three-worker scenarios use the delay-bounded policy", "file mode (a new stage's pool overlapping the previous stage's in-flight work) is outside the statement and not checked"],
+    },
     "C18": {
         "parts": [{"harness": "c18", "budget": {"quick": 30, "thorough": 300}, "shards": {"quick": 1, "thorough": 1}}],
         "rule": "one execution = one complete interleaving + timer order of the scenario (schedule list x function duration x Restart/Stop/cancel script); distinct = distinct outcome signatures (status, violations, ordered event log)",
@@ -32,6 +42,12 @@ LEVELS = {
             "note": E1_NOTE},
     "C02": {"engine": "vrt", "technique": "stateless model checking of the real worker pool under a controlled scheduler: all interleavings up to a preemption bound (free switches at blocking points) plus delay-bounded exploration for more workers, against a counter reference model",
             "text": "The real PoolManager/TriggerPool/ActiveScenario are driven by a scripted ticking thread (tick sizes, quiescent or back-to-back ticks, gated bodies, cancel after/at/racing the last tick, max-iterations); every interleaving within the bound is executed and conservation (started + dropped = requested, nothing pending for ever, nothing both), exactness at quiescent ticks against a counter model and silence of the limit path are checked on each.",
+            "note": E1_NOTE},
+    "C03": {"engine": "vrt", "technique": "stateless model checking of the real pools under a controlled scheduler: all interleavings of workers competing for the last iteration ids up to a preemption / delay bound",
+            "text": "Workers of the real TriggerPool / ContinuousPool (and two config-file stages sharing one PoolManager) compete for iteration ids under every interleaving within the bound; invocations never exceed N in any state, equal N when requests suffice or the limit is reported reached, ids are exactly 1..k, and MaxIterationsReached agrees with whether a request was refused.",
+            "note": E1_NOTE},
+    "C04": {"engine": "vrt", "technique": "stateless model checking of the real pools under a controlled scheduler: all interleavings up to a preemption / delay bound with in-flight tracking and barrier bodies (deadlock = violation)",
+            "text": "Bodies track the in-flight count, its high-water mark and the set of live test handles under every interleaving within the bound (ceiling and handle exclusivity in every state); barrier bodies that only finish when `concurrency` bodies are inside must terminate in every schedule, so a lost wake-up or an unusable worker shows up as a deadlock.",
             "note": E1_NOTE},
     "C18": {"engine": "vrt", "technique": "stateless model checking of the real raterun.Runner under a controlled scheduler with virtual time: all interleavings, select choices and same-instant timer orders up to a deviation bound",
             "text": "The real Runner runs in virtual time against scripted Restart/Stop/cancel sequences; every interleaving of the runner goroutine with the driver, every select choice among ready cases and every order of same-instant timers is executed (deviation bound per scenario in the evidence) and the ordered event log is checked: rate per schedule activation, argument, nothing executing or invoked after Stop returned, no thread or timer left.",
